@@ -160,6 +160,12 @@ def beginFlush (s : St) (w : Nat) (closing : Bool) : St :=
 def rootGetNode (s : St) : St :=
   { s with linkSub := s.fnode, linkRoot := s.fnode }
 
+/-- `Directory.List` / `ForEachEntry` of the root directory: it calls `GetNode()` on every entry, and for the entry
+`/d` that is `Directory.getNode`, whose cache synchronisation brings /d's link table up to its File objects' nodes
+(the root directory's own links are not touched) -/
+def listRoot (s : St) : St :=
+  { s with linkSub := s.fnode }
+
 /-- `File.SetMode` when nothing else is going on: new node with the same content, full propagation, published -/
 def chmod (s : St) (f m : Nat) : St :=
   let s := { s with fmode := upd s.fmode f m }
@@ -183,6 +189,7 @@ inductive Step : St → St → Prop where
       (s.ws w).fd = some fd → (s.ws w).stage = none → Step s (beginFlush s w closing)
   | micro (s s' : St) (w : Nat) : micro s w = some s' → Step s s'
   | rootGet (s : St) : Step s (rootGetNode s)
+  | list (s : St) : Step s (listRoot s)
   | chmod (s : St) (f m : Nat) : (∀ w, (s.ws w).fd = none) → Step s (chmod s f m)
 
 inductive Reach (sub : Nat → Bool) : St → Prop where
